@@ -25,6 +25,10 @@ pub mod sse {
         use super::*;
         include!("interp_table.rs");
     }
+    pub mod set {
+        use super::*;
+        include!("interp_set.rs");
+    }
 }
 
 /// Interpreters instantiated against the portable (cfg(miri)) twin of /repo.
@@ -40,6 +44,10 @@ pub mod gen {
         use super::*;
         include!("interp_table.rs");
     }
+    pub mod set {
+        use super::*;
+        include!("interp_set.rs");
+    }
 }
 
 pub mod specs;
@@ -51,6 +59,8 @@ pub fn run_case(case: &case::Case) -> outcome::Outcome {
         ("map", _) => gen::map::run_case(case),
         ("table", 0) => sse::table::run_case(case),
         ("table", _) => gen::table::run_case(case),
+        ("set", 0) => sse::set::run_case(case),
+        ("set", _) => gen::set::run_case(case),
         _ => panic!("unknown case kind {}", case.kind),
     }
 }
